@@ -89,9 +89,22 @@ HandleZRLE (rfbClient* client, int rx, int ry, int rw, int rh)
 	int remaining;
 	int inflateResult;
 	int toRead;
-	/* 4 spare bytes behind the decompressed data: UncompressCPixel reads a
+	/* Worst case of a valid tile stream: every 64x64 tile carries one type
+	 * byte and a palette of at most 127 CPIXELs, every pixel takes at most
+	 * CPIXEL_BYTES + 1 bytes (plain RLE with runs of length 1); there are at
+	 * most (rw/64 + 1) * (rh/64 + 1) tiles.  (Twice the raw size, as used
+	 * before, refuses e.g. a 1x1 rectangle sent with a palette.)
+	 * 4 spare bytes behind the decompressed data: UncompressCPixel reads a
 	 * 3-byte CPIXEL as a whole CARDBPP */
-	int min_buffer_size = rw * rh * (CPIXEL_BYTES) * 2 + 4;
+	uint64_t worst_case = ((uint64_t)(rw / 64) + 1) * ((uint64_t)(rh / 64) + 1) * (1 + 127 * (CPIXEL_BYTES))
+		+ (uint64_t)rw * (uint64_t)rh * ((CPIXEL_BYTES) + 1) + 4;
+	int min_buffer_size;
+
+	if (rw < 0 || rh < 0 || worst_case > 0x7fffffff) {
+		rfbClientLog("ZRLE rectangle %dx%d too large\n", rw, rh);
+		return FALSE;
+	}
+	min_buffer_size = (int)worst_case;
 
 	/* First make sure we have a large enough raw buffer to hold the
 	 * decompressed data.  In practice, with a fixed REALBPP, fixed frame
